@@ -20,6 +20,10 @@ type loadCase struct {
 	Scripts []scriptSrc
 	Order   []string
 	Reps    int
+	// asymmetric function tables ("arbitrary registered function tables"): names removed from the
+	// call table only / from the checker table only
+	DropCall  []string
+	DropCheck []string
 }
 
 func errJSON(e error) map[string]any {
@@ -55,6 +59,19 @@ func loadV1(lc loadCase) map[string]any {
 
 func loadDirect(lc loadCase) map[string]any {
 	call, check := fnTables()
+	for _, n := range lc.DropCall {
+		delete(call, n)
+	}
+	nocheck := []string{}
+	for _, n := range lc.DropCheck {
+		delete(check, n)
+		nocheck = append(nocheck, hx(n))
+	}
+	callNames := []string{}
+	for k := range call {
+		callNames = append(callNames, hx(k))
+	}
+	sort.Strings(callNames)
 	d := newDumper()
 	oks := map[string]*plruntime.Script{}
 	errs := map[string]error{}
@@ -84,13 +101,17 @@ func loadDirect(lc loadCase) map[string]any {
 		}
 		// the v2 interpreter's check pass on the same text, with a table of the same names whose
 		// checker is a plain arity rule (at most three arguments)
-		if _, err2 := engine.ParseV2(s.Name, s.Src, v2CheckTable()); err2 != nil {
+		if _, err2 := engine.ParseV2(s.Name, s.Src, v2CheckTable(callNames)); err2 != nil {
 			rec["check2_err"] = errJSON(err2)
 		}
 		rec["check2"] = true
 		scripts = append(scripts, rec)
 	}
-	res := map[string]any{"k": "load", "scripts": scripts, "fns": fnNames()}
+	dropcall := []string{}
+	for _, n := range lc.DropCall {
+		dropcall = append(dropcall, hx(n))
+	}
+	res := map[string]any{"k": "load", "scripts": scripts, "fns": callNames, "nocheck": nocheck, "dropcall": dropcall}
 	order := []string{}
 	for _, n := range lc.Order {
 		order = append(order, hx(n))
@@ -135,9 +156,9 @@ func loadDirect(lc loadCase) map[string]any {
 	return res
 }
 
-func v2CheckTable() map[string]*runtimev2.Fn {
+func v2CheckTable(names []string) map[string]*runtimev2.Fn {
 	t := map[string]*runtimev2.Fn{}
-	for _, hn := range fnNames() {
+	for _, hn := range names {
 		n := unhx(hn)
 		t[n] = &runtimev2.Fn{
 			CallCheck: func(ctx *runtimev2.Task, expr *ast.CallExpr) *errchain.PlError {
